@@ -41,6 +41,13 @@ NOTES = {
  "C16-m5": "needed a union that is reset and used again, compared with a fresh one", "C16-m6": "needed the union fed by move compared with the union fed by reference",
  "C17-m5": "needed the `one_value_then_buffered` scenario (a compress point while the digest holds one value)",
  "C19-m5": "needed union k up to 64 in the heap world (arrays that have grown before reset)", "C19-m6": "needed the `copy_then_continue_both` step (source and copy fed the same batch under the same draws stay equal)",
+ # round 5
+ "C08-m8": "needed the rule 'each half-width of REQ's published interval only shrinks towards the accurate end' (the coverage classes are recorded findings)",
+ "C09-m8": "needed string items that carry non-text bytes (0xFF, 0x80, 0x00)",
+ "C10-m7": "needed a reader written from the documented KLL layout (k, n, min_k fields against what the API reported) and merges of a smaller-k sketch in the store histories",
+ "C10-m8": "needed Tuple images relabelled with the legacy ids (serial version 1, sketch type 5)",
+ "C14-m8": "needed the smallest legal table (3 buckets, 1..3 rows, one dominant item) in the confidence step",
+ "C16-m8": "needed zero-weight updates in the batches",
  "C20-m3": "needed refusals placed on the capacity boundary and the rule 'a refused operation leaves the observation unchanged'",
 }
 res = {}
